@@ -499,7 +499,9 @@ impl<'s, const M: usize> Exec<'s, M> {
                     format!("{} bytes: outcome {:?}, allocator requests {:?}", n, out, self.op_reqs),
                 );
             } else if let Some(a) = addr {
-                if self.on_block(a, n, 1, Expect::Pat(0xC06), true) {
+                let big = n > (256 << 10);
+                let ex = if big { Expect::Opaque } else { Expect::Pat(0xC06) };
+                if self.on_block(a, n, 1, ex, true) && !big {
                     self.fill_pat(a, n, 0xC06);
                 }
             }
@@ -862,6 +864,7 @@ impl<'s, const M: usize> Exec<'s, M> {
         }
         RunReport {
             violations: self.viol,
+            side: self.side,
             trace: self.trace,
             stats: self.stats,
             fp: self.fp.0,
